@@ -14,7 +14,7 @@ NOT_APPLICABLE = {}
 
 PROPS["C18"] = simple(
     "verifchk/c18", "TestVerifC18", "exploration",
-    "history: every op sequence over {add,back,forward} of length 10 (quick) / 13 (thorough), checked after every op, "
+    "history: every op sequence over {add new, add a value equal to the current one, back, forward} of length 9 (quick) / 12 (thorough), checked after every op, "
     "so all shorter sequences are covered as prefixes; feed: every sequence of length 5 / 7 starting with create or "
     "create-list k and continuing over {create, create-list k, append k, prepend k (k in 0..2), up, down, centre}; "
     "plus PRNG sequences of length 10..200 with k up to 8. Non-trivial = the sequence hits at least one boundary "
